@@ -22,6 +22,8 @@
 //!                              <ts> = last_seen: 0 (= now) | 1 (= two days old / one day ahead) | now-1 | now+2 | old | fut |
 //!                              <secs>n<nanos> literal; u<ts> = last_updated;
 //!                              tp = err | peers `s:f:e,…|…` with e = expired (serde_json + UTF-8 into a mirror struct)
+//!   probe-netaddr <b>          (replay only, no model) format!("{:?}", NetworkAddress::RecordKey(b))
+//!   probe-evmenv <s> <s> <s>   (replay only, no model) get_evm_network_from_env() with RPC_URL / PAYMENT_TOKEN_ADDRESS / DATA_PAYMENTS_ADDRESS set
 use ant_bootstrap::{BootstrapAddr, BootstrapAddresses, BootstrapCacheConfig, BootstrapCacheStore};
 use ant_protocol::storage::{try_deserialize_record, RecordHeader, RecordKind, ScratchpadAddress};
 use ant_registers::RegisterAddress;
@@ -303,6 +305,21 @@ fn exec(line: &str, tmp: &std::path::Path) -> (String, String) {
                 let (Some(k), Some(pw)) = (s_of(k), s_of(pw)) else { return "bad-op".into() };
                 match encrypt_private_key(&k, &pw) {
                     Ok(e) => format!("ok {}", e.len()),
+                    Err(_) => "err".into(),
+                }
+            }
+            ["probe-netaddr", b] => {
+                let Some(b) = unhex(b) else { return "bad-op".into() };
+                let a = ant_protocol::NetworkAddress::RecordKey(bytes::Bytes::from(b));
+                format!("ok {}", hex(format!("{a:?}").as_bytes()))
+            }
+            ["probe-evmenv", rpc, tok, pay] => {
+                let (Some(rpc), Some(tok), Some(pay)) = (s_of(rpc), s_of(tok), s_of(pay)) else { return "bad-op".into() };
+                std::env::set_var("RPC_URL", rpc);
+                std::env::set_var("PAYMENT_TOKEN_ADDRESS", tok);
+                std::env::set_var("DATA_PAYMENTS_ADDRESS", pay);
+                match ant_evm::get_evm_network_from_env() {
+                    Ok(n) => format!("ok {}", hex(format!("{n:?}").as_bytes())),
                     Err(_) => "err".into(),
                 }
             }
@@ -633,6 +650,23 @@ fn generate(n: u64, rng: &mut Rng) -> Vec<String> {
     for len in length_sweep(20) {
         v.push(format!("decrypt {} {} x", hx(&hex_string(rng, len)), hx("pw")));
     }
+    // "long non-ASCII" family on every &str parser: unparsable text with a multi-byte char at every byte offset
+    // (contacts lines and ANT_PEERS items reach craft_valid_multiaddr_from_str with arbitrary text, e.g. an HTML error page)
+    v.push(format!("craft 0 {} x", hx(&format!("<html><head><title>503 Dienst nicht verfügbar</title></head><body>{}ü</body></html>", "x".repeat(2)))));
+    for (i, t) in non_ascii_sweep('x', 200).into_iter().enumerate() {
+        v.push(format!("craft {} {} x", i % 2, hx(&t)));
+    }
+    for t in non_ascii_sweep('a', 200) {
+        v.push(format!("reghex {} x", hx(&t)));
+        v.push(format!("scratchhex {} x", hx(&t)));
+        v.push(format!("decrypt {} {} x", hx(&t), hx("pw")));
+    }
+    for (i, t) in non_ascii_sweep('1', 80).into_iter().enumerate() {
+        // the same family inside otherwise well-formed text
+        let id = peer_id((i % 5) as u64);
+        v.push(format!("craft 0 {} x", hx(&format!("/ip4/10.0.0.1/udp/{t}/quic-v1/p2p/{id}"))));
+        v.push(format!("craft 1 {} x", hx(&format!("/dns/{t}/tcp/80"))));
+    }
     for len in 0..=5 {
         for first in [0x91u8, 0x81, 0x92, 0x00] {
             let mut b = rng.bytes(len);
@@ -802,6 +836,25 @@ fn generate(n: u64, rng: &mut Rng) -> Vec<String> {
 
 /// Install a TRACE-level subscriber that really formats every event (into a sink), so that the
 /// `Display`/`Debug` impls reached from the parsers' log statements are executed under `catch_unwind`.
+/// "Long non-ASCII" family: strings of `fill` with one 2-, 3- or 4-byte char starting at every byte
+/// offset 0..=max, once near the end of the string and once followed by padding up to `max` bytes
+/// (slicing a &str at a fixed byte offset is the typical slip; it only fails inside such a char).
+fn non_ascii_sweep(fill: char, max: usize) -> Vec<String> {
+    let mut v = vec![];
+    for off in 0..=max {
+        for ch in ['é', '€', '😀'] {
+            let head: String = std::iter::repeat(fill).take(off).collect();
+            v.push(format!("{head}{ch}{fill}"));
+            let used = off + ch.len_utf8();
+            if used + 1 < max {
+                let tail: String = std::iter::repeat(fill).take(max - used).collect();
+                v.push(format!("{head}{ch}{tail}"));
+            }
+        }
+    }
+    v
+}
+
 fn install_formatting_subscriber() {
     let _ = tracing_subscriber::fmt()
         .with_max_level(tracing::Level::TRACE)
